@@ -180,6 +180,7 @@ type replayCase struct {
 	Detail   string          `json:"detail,omitempty"`
 	Observed []interp.ObsRec `json:"observed,omitempty"`
 	Sched    []string        `json:"sched,omitempty"`
+	Labels   []string        `json:"labels,omitempty"`
 }
 
 type nativeResult struct {
@@ -352,10 +353,10 @@ func cmdCheck(id, tier string) int {
 			if perLabel[v.Label] > 3 {
 				continue
 			}
-			allCases = append(allCases, replayCase{Harness: hc.Func, Inputs: v.Model, Params: tc.Params, Kind: "violation", Label: v.Label, Pkg: hc.Pkg, Detail: v.Detail, Sched: v.Sched})
+			allCases = append(allCases, replayCase{Harness: hc.Func, Inputs: v.Model, Params: tc.Params, Kind: "violation", Label: v.Label, Pkg: hc.Pkg, Detail: v.Detail, Sched: v.Sched, Labels: hc.Labels})
 		}
 		for _, k := range hr.KnownSeen {
-			allCases = append(allCases, replayCase{Harness: hc.Func, Inputs: k.Model, Params: tc.Params, Kind: "known", Label: k.Label, Known: k.Known, Pkg: hc.Pkg, Detail: k.Detail, Sched: k.Sched})
+			allCases = append(allCases, replayCase{Harness: hc.Func, Inputs: k.Model, Params: tc.Params, Kind: "known", Label: k.Label, Known: k.Known, Pkg: hc.Pkg, Detail: k.Detail, Sched: k.Sched, Labels: hc.Labels})
 		}
 		nval := tc.Validate
 		if nval == 0 {
@@ -370,7 +371,7 @@ func cmdCheck(id, tier string) int {
 			off := seed % len(st)
 			for i := 0; i < len(st) && i < nval; i++ {
 				s := st[(off+i)%len(st)]
-				allCases = append(allCases, replayCase{Harness: hc.Func, Inputs: s.Inputs, Params: tc.Params, Kind: "sample", Pkg: hc.Pkg, Observed: s.Observed})
+				allCases = append(allCases, replayCase{Harness: hc.Func, Inputs: s.Inputs, Params: tc.Params, Kind: "sample", Pkg: hc.Pkg, Observed: s.Observed, Labels: hc.Labels})
 			}
 			for i := 0; i < len(st) && i < 2; i++ {
 				samples = append(samples, map[string]any{"harness": hc.Func, "path_decisions": st[i].Trace, "inputs_model": st[i].Inputs, "observed": st[i].Observed})
@@ -585,7 +586,7 @@ func runNative(id string, cases []replayCase, real map[string]string) []nativeRe
 	for pkg, idxs := range byPkg {
 		var list []map[string]any
 		for _, i := range idxs {
-			list = append(list, map[string]any{"case": i, "harness": cases[i].Harness, "inputs": cases[i].Inputs, "params": cases[i].Params})
+			list = append(list, map[string]any{"case": i, "harness": cases[i].Harness, "inputs": cases[i].Inputs, "params": cases[i].Params, "labels": cases[i].Labels})
 		}
 		cf := filepath.Join(work, "cases-"+strings.ReplaceAll(strings.TrimPrefix(pkg, repoMod+"/"), "/", "_")+".json")
 		cb, _ := json.MarshalIndent(list, "", " ")
